@@ -1,0 +1,63 @@
+//go:build verif
+
+package table
+
+import (
+	"github.com/lindb/lindb/pkg/bufioutil"
+)
+
+// VerifFault decides whether an intercepted table file operation fails: a non-nil error is returned to
+// the caller of the operation. tableCreate and tableWrite are then NOT performed (EIO/ENOSPC/EMFILE: nothing
+// reaches the file); tableClose is performed (the descriptor is released) and reports the error.
+type VerifFault func(op, path string) error
+
+type verifFaultWriter struct {
+	bufioutil.BufioWriter
+	path  string
+	h     VerifFSHook
+	fault VerifFault
+}
+
+func (w *verifFaultWriter) Write(p []byte) (int, error) {
+	w.h("tableWrite", w.path, true)
+	if err := w.fault("tableWrite", w.path); err != nil {
+		w.h("tableWrite", w.path, false)
+		return 0, err
+	}
+	n, err := w.BufioWriter.Write(p)
+	w.h("tableWrite", w.path, false)
+	return n, err
+}
+
+func (w *verifFaultWriter) Close() error {
+	w.h("tableClose", w.path, true)
+	ferr := w.fault("tableClose", w.path)
+	err := w.BufioWriter.Close()
+	w.h("tableClose", w.path, false)
+	if ferr != nil {
+		return ferr
+	}
+	return err
+}
+
+// VerifSetFSHookWithFaults is VerifSetFSHook plus a fault injector which is asked once per operation
+// (after the before-call of the hook). Build tag verif only; VerifSetFSHook(nil) restores production.
+func VerifSetFSHookWithFaults(h VerifFSHook, fault VerifFault) {
+	if h == nil || fault == nil {
+		VerifSetFSHook(h)
+		return
+	}
+	newBufioWriterFunc = func(fileName string) (bufioutil.BufioWriter, error) {
+		h("tableCreate", fileName, true)
+		if err := fault("tableCreate", fileName); err != nil {
+			h("tableCreate", fileName, false)
+			return nil, err
+		}
+		w, err := bufioutil.NewBufioStreamWriter(fileName)
+		h("tableCreate", fileName, false)
+		if err != nil {
+			return nil, err
+		}
+		return &verifFaultWriter{BufioWriter: w, path: fileName, h: h, fault: fault}, nil
+	}
+}
